@@ -24,7 +24,7 @@ struct_time read as UTC, decimals rebuilt from (unscaled, scale), dict entries i
 order (dict equality ignores the order; this is the canonical representative) -/
 def norm : PyVal → PyVal
   | .float bits => .float (f32Widen ((f32Narrow bits).getD 0))
-  | .datetime m tz => .datetime (instantMicros m tz / 1000000 * 1000000) (some 0)
+  | .datetime m tz => .datetime (Int.tdiv (instantMicros m tz) 1000000 * 1000000) (some 0)
   | .structTime s => .datetime (s * 1000000) (some 0)
   | .decimal n c e => normDecimal n c e
   | .list vs => .list (normList vs)
@@ -88,11 +88,11 @@ def Encodable (legacy : Bool) : PyVal → Prop
   | .none => True
   | .bool _ => True
   | .int i => -9223372036854775808 ≤ i ∧ i ≤ 9223372036854775807
-  | .float bits => bits < 2 ^ 64 ∧ (f32Narrow bits).isSome
+  | .float bits => (f32Narrow bits).isSome
   | .decimal n c e => decimalOK n c e
   | .str s => (utf8Encode s).isSome ∧ utf8Len s < 2 ^ 32
   | .bytearray b => b.length < 2 ^ 32
-  | .datetime m tz => 0 ≤ instantMicros m tz ∧ instantMicros m tz / 1000000 ≤ 4294967295
+  | .datetime m tz => -1000000 < instantMicros m tz ∧ instantMicros m tz / 1000000 ≤ 4294967295
   | .structTime s => 0 ≤ s ∧ s ≤ 4294967295
   | .list vs => EncodableList legacy vs ∧ wireSizeList legacy vs < 2 ^ 32
   | .dict kvs => EncodableEntries legacy kvs ∧ (kvs.map (·.1)).Nodup ∧ wireSizeEntries legacy kvs < 2 ^ 32
